@@ -20,6 +20,9 @@ CORPUS = [
     [6, 100, 'strand', 4, 3, 'local-priority-fifo', 1],
     [7, 0, 'yieldpoll', 6, 3, 'static-priority', 1],     # a yield()-polling task lives on the PU being suspended (must be moved away)
     [8, 0, 'yieldpoll', 3, 4, 'local-priority-fifo', 1],
+    [9, 0, 'pupool', 8, 4, 'local-priority-fifo', 1],       # neighbouring PUs asleep when the whole pool is suspended
+    [10, 100, 'pupool', 8, 3, 'static-priority', 1],
+    [11, 0, 'pupool', 12, 6, 'abp-priority-fifo', 1],
 ]
 # only when the finding is registered in known_findings.txt (reported as KNOWN-FINDING, exit 0)
 FINDING_RUNS = [[1, 0, 'lowprio', 1, 3, 'local-priority-fifo', 1]]
@@ -46,7 +49,7 @@ def runs(rng, tier):
 
 def extra_runs(rng, tier):
     return [[rng.below(1 << 30), 400, prog, 16, n, pol, el] for pol in POLICIES for n in (2, 4)
-            for prog, el in (('yieldpoll', 1), ('strand', 1), ('race', 1), ('pu', 1), ('pool', 0), ('refuse', 0), ('refuse', 1))]
+            for prog, el in (('pupool', 1), ('yieldpoll', 1), ('strand', 1), ('race', 1), ('pu', 1), ('pool', 0), ('refuse', 0), ('refuse', 1))]
 
 
 def nontrivial(raw):
